@@ -493,6 +493,7 @@ class Driver(object):
         self.conc_seed = conc_seed
         self.shadow = False
         self.vary_threads = True
+        self.vary_caller = True  # some runs are started while the caller is handling an exception (sys.exc_info() is set)
         self.check_default_lookup = False
         self.returned_exceptions = False
         self.in_opts = [dict(o) for o in consts.get('FreeOptsList', [])]
@@ -507,6 +508,8 @@ class Driver(object):
         out.append(Mismatch(cat=cat, step=idx, expected=_j(expected), observed=_j(observed), note=note))
 
     def _token_of_value(self, v):
+        if isinstance(v, UnsavableResult):
+            return v.token
         t = self.conc.token_of(v)
         return t if t is not None else ('?', repr(v)[:80])
 
@@ -735,6 +738,16 @@ class Driver(object):
             self._mm(out, 'idle', idx, (False, False, None, False), obs,
                      'recorder not idle after the run (recording, replaying, current id, forced)')
 
+    def _in_caller_context(self, fn, i0):
+        """Where the caller stands is a presentation of the run, not part of it: every fourth run is started from inside
+        an exception handler of the caller (as a fallback path would), so that sys.exc_info() is not empty."""
+        if not self.vary_caller or (self.beh_hash // 7 + i0) % 4 != 0:
+            return fn()
+        try:
+            raise LookupError('the caller is handling this exception while it starts the run')
+        except LookupError:
+            return fn()
+
     def _run_op(self, beh, i0, j, out, obs):
         ctx = self.ctx
         enter = beh[i0]['ev']
@@ -784,13 +797,13 @@ class Driver(object):
         seen_op = None
         import datetime as _dt
         wall0 = _dt.datetime.utcnow()
+        def invoke():
+            if enter['cls'].endswith('c'):
+                return cls.execute()
+            return cls().execute()
         with copy_patch:
             try:
-                if enter['cls'].endswith('c'):
-                    res = cls.execute()
-                else:
-                    res = cls().execute()
-                seen_op = ('ret', res)
+                seen_op = ('ret', self._in_caller_context(invoke, i0))
             except BaseException as ex:  # noqa
                 seen_op = ('raise', ex)
         self.spy.fail_save = False
@@ -1057,7 +1070,7 @@ class Driver(object):
             return op_cls().execute()
 
         try:
-            pb = self.recorder.play(real_id, playback_function)
+            pb = self._in_caller_context(lambda: self.recorder.play(real_id, playback_function), i0)
             seen = ('ok', pb)
         except BaseException as ex:  # noqa
             seen = ('raise', ex)
